@@ -1,5 +1,6 @@
 //! Executors for GenericTimerService (model: coq/Model/Timer.v).
 use crate::core::*;
+use crate::lib_or_panic;
 use futures_core::future::FusedFuture;
 use futures_intrusive::timer::{
     GenericTimerService, LocalTimer, LocalTimerFuture, MockClock, Timer, TimerFuture,
@@ -62,13 +63,13 @@ macro_rules! timer_exec {
                         o.r = vec![lib(|| c.set_time(*t)).map_or(R_PANIC, |_| R_UNIT)];
                     }
                     [1, f, t] if (*f as usize) < self.futs.len() && !self.futs.alive(*f as usize) => {
-                        let fut = lib(|| $trait::deadline(svc, *t)).unwrap();
+                        let fut = lib_or_panic!(o, || $trait::deadline(svc, *t));
                         self.futs.put(*f as usize, fut);
                         o.r = vec![R_UNIT, *t];
                     }
                     [2, f, secs, nanos] if (*f as usize) < self.futs.len() && !self.futs.alive(*f as usize) => {
                         let d = Duration::new(*secs, *nanos as u32);
-                        let fut = lib(|| $trait::delay(svc, d)).unwrap();
+                        let fut = lib_or_panic!(o, || $trait::delay(svc, d));
                         self.futs.put(*f as usize, fut);
                         // the deadline is not observable directly: report next_expiration-free view
                         // by registering nothing; the model's deadline is checked through later
